@@ -222,10 +222,23 @@ pub fn run_renko(c: &RenkoCase, st: &mut Stats) -> CaseResult {
 			let rest = n - taken;
 			ensure!(it.len() == rest && it.size_hint() == (rest, Some(rest)) && it.clone().count() == rest, "C17:renko:len-partial", "step {step}: after {taken} of {n} blocks len/size_hint/count do not report {rest}");
 			ensure!(it.clone().last() == if rest > 0 { blocks.last().copied() } else { None }, "C17:renko:last-partial", "step {step}: after {taken} of {n} blocks last() is wrong");
-			for k in [0usize, 1, rest / 2, rest.saturating_sub(1), rest, rest + 1] {
-				let got = it.clone().nth(k);
-				ensure!(got == blocks.get(taken + k).copied(), "C17:renko:nth-partial", "step {step}: after {taken} of {n} blocks nth({k}) = {:?} expected {:?}", got, blocks.get(taken + k));
+			for k in [0usize, 1, rest / 2, rest.saturating_sub(1), rest, rest + 1, 255, 256, 256 + rest / 2, 65535, 65536, 65536 + rest / 2, 1 << 32, (1 << 32) + rest / 2, usize::MAX - 1, usize::MAX] {
+				let mut it2 = it.clone();
+				let got = it2.nth(k);
+				let e = taken.checked_add(k).and_then(|i| blocks.get(i)).copied();
+				ensure!(got == e, "C17:renko:nth-partial", "step {step}: after {taken} of {n} blocks nth({k}) = {:?} expected {:?}", got, e);
+				// ... and the iterator is left right behind that block (exhausted when there is none)
+				let left = it2.len();
+				let tail: Vec<RenkoBlock> = it2.collect();
+				let e: &[RenkoBlock] = if k < rest { &blocks[taken + k + 1..] } else { &[] };
+				ensure!(left == e.len() && tail == e, "C17:renko:nth-remainder", "step {step}: after {taken} of {n} blocks and nth({k}) {} blocks are left ({} collected), expected {}", left, tail.len(), e.len());
+				let got: Vec<RenkoBlock> = it.clone().skip(k).take(70).collect();
+				let e: Vec<RenkoBlock> = blocks[taken..].iter().skip(k).take(70).copied().collect();
+				ensure!(got == e, "C17:renko:skip-partial", "step {step}: after {taken} of {n} blocks skip({k}) yields {} blocks, expected {}", got.len(), e.len());
 			}
+			let got = it.clone().fold((0usize, 0u64), |a, b| (a.0 + 1, engine::mix(a.1, (b.open as f64).to_bits() ^ (b.close as f64).to_bits().rotate_left(21))));
+			let e = blocks[taken..].iter().fold((0usize, 0u64), |a, b| (a.0 + 1, engine::mix(a.1, (b.open as f64).to_bits() ^ (b.close as f64).to_bits().rotate_left(21))));
+			ensure!(got == e, "C17:renko:fold-partial", "step {step}: after {taken} of {n} blocks fold visits {} blocks, expected {} (or other blocks)", got.0, e.0);
 			let stepped: Vec<RenkoBlock> = it.clone().take(64).step_by(2).collect();
 			let expect: Vec<RenkoBlock> = blocks[taken..].iter().take(64).step_by(2).copied().collect();
 			ensure!(stepped == expect, "C17:renko:step_by-partial", "step {step}: after {taken} of {n} blocks step_by(2) yields {} blocks, expected {}", stepped.len(), expect.len());
